@@ -1419,7 +1419,10 @@ class Exec:
         else:
             za, zb = to_z3(a), to_z3(b)
             m = self.define(st, z3.simplify(z3.If(zb - za < 0, z3.IntVal(0), zb - za)), "slen")
-        return Seq(m, lambda i, s=s, a=a: s.at(i + a), s.kind)
+        out = Seq(m, lambda i, s=s, a=a: s.at(i + a), s.kind)
+        if isinstance(a, int) and a == 0:
+            out.prefix_of = (s, b)          # s[:b]: used by seq_filter (a mask's prefix enumerates a prefix)
+        return out
 
     def as_seq(self, v, st, node=None):
         if isinstance(v, Seq):
@@ -1690,7 +1693,7 @@ class Exec:
             if isinstance(idx, Seq):
                 if idx.ety() == "bool":
                     self.oblige(st, self.cmp_eq(idx.n, base.n), "mask-shape", node)
-                    return self.seq_filter(base, lambda i: idx.at(i), st)[0]
+                    return self.seq_filter(base, lambda i: idx.at(i), st, mask=idx)[0]
                 self.oblige_forall_index(st, idx, base.n, node)
                 return Seq(idx.n, lambda j, base=base, idx=idx: base.at(as_int(idx.at(j))), base.kind)
             if is_scalar(idx):
@@ -1700,11 +1703,40 @@ class Exec:
             return self.ctx.lib.index_opaque(self, st, base, node)
         raise EngineError("%s:L%d: unsupported subscript on %r" % (self.fnname, node.lineno, base))
 
-    def seq_filter(self, s, keep, st):
-        """Subsequence of s at the indices i (ascending) where keep(i).  Returns (Seq, src, inv)."""
+    def seq_filter(self, s, keep, st, mask=None):
+        """Subsequence of s at the indices i (ascending) where keep(i).  Returns (Seq, src, inv).
+        `mask`: the boolean Seq object the predicate comes from.  The ascending enumeration of the true
+        positions of one mask object is a property of the mask alone, so every selection through the same
+        mask shares one enumeration (count, src, inv); the enumeration of a prefix mask[:h] is the initial
+        piece of the mask's enumeration that lies below h (src is strictly increasing)."""
         if s.concrete_len() and all(isinstance(keep(i), bool) for i in range(s.n)):
             idxs = [i for i in range(s.n) if keep(i)]
             return Seq.of([s.at(i) for i in idxs], s.kind), (lambda j: idxs[j]), None
+        if mask is not None and not self.bound_stack:
+            memo = st.ghost.get("__filters__", {})
+            hit = memo.get(id(mask))
+            if hit is None and getattr(mask, "prefix_of", None) is not None:
+                base, h = mask.prefix_of
+                bh = memo.get(id(base))
+                if bh is None:
+                    self.seq_filter(Seq(base.n, lambda i: i, "array"), lambda i, base=base: base.at(i), st, mask=base)
+                    memo = st.ghost.get("__filters__", {})
+                    bh = memo.get(id(base))
+                if bh is not None:
+                    _, bm, bsrc, binv = bh
+                    m2 = z3.Int(uid("count"))
+                    jj = bvar("j")
+                    hz = to_z3(h)
+                    st.pc.append(z3.And(m2 >= 0, m2 <= to_z3(bm)))
+                    st.pc.append(z3.ForAll([jj], z3.Implies(z3.And(jj >= 0, jj < to_z3(bm)), (bsrc(jj) < hz) == (jj < m2)),
+                                           patterns=[bsrc(jj)]))
+                    hit = (mask, m2, bsrc, binv)
+                    memo = dict(memo)
+                    memo[id(mask)] = hit
+                    st.ghost["__filters__"] = memo
+            if hit is not None:
+                _, m, src, inv = hit
+                return Seq(m, lambda jj, s=s, src=src: s.at(src(to_z3(jj))), s.kind), (lambda jj: src(to_z3(jj))), (lambda ii: inv(to_z3(ii)))
         # under quantifier-bound variables (comprehension templates) the count and the index maps
         # are functions of those variables, and the defining facts hold for all their values
         bvs = list(self.bound_stack)
@@ -1744,6 +1776,10 @@ class Exec:
         add(z3.ForAll([i], z3.Implies(z3.And(i >= 0, i < n, ki), z3.And(m >= 1, src(0) <= i, i <= src(m - 1))),
                       **({"patterns": [ki]} if _is_uf_app(ki) else {})))
         out = Seq(m, lambda jj, s=s: s.at(src(to_z3(jj))), s.kind)
+        if mask is not None and not nb:
+            memo = dict(st.ghost.get("__filters__", {}))
+            memo[id(mask)] = (mask, m, src, inv)       # the mask object is kept alive: its id stays unique
+            st.ghost["__filters__"] = memo
         return out, (lambda jj: src(to_z3(jj))), (lambda ii: inv(to_z3(ii)))
 
     # comprehensions --------------------------------------------------------
